@@ -2,6 +2,7 @@ package props
 
 import (
 	"fmt"
+	"strconv"
 	"strings"
 	"sync"
 	"testing"
@@ -43,6 +44,13 @@ func c13BGen(t *rapid.T) C13BCase {
 			name := strings.ToLower(string(a[0]))
 			if len(a) == 0 || name == "" || a[0][0] == '@' || c13Blocking[name] || name == "quit" || name == "client" || name == "flushall" || name == "multi" || name == "select" || name == "hello" {
 				a = kit.A(randCase(t, "echo"), "filler")
+			}
+			// offsets that legitimately make the server build values of hundreds of megabytes are left to the
+			// single-connection check: here they would only make every other connection wait for minutes
+			for i := range a {
+				if n, err := strconv.ParseUint(strings.TrimPrefix(string(a[i]), "#"), 10, 64); err == nil && n >= 1<<24 && n < 1<<34 {
+					a[i] = "1048576"
+				}
 			}
 			cmds = append(cmds, a)
 		}
